@@ -18,8 +18,10 @@ func init() {
 			"(R-C09-VICTIM) the key given to evict.del and recorded in the victim item is the arg-min key, its cost the arg-min cost, the arg-min element is removed from the sample, and the sample is refilled inside every round before the scan; " +
 			"(R-C09-SAMPLE) fillSample appends only pairs ranged from keyCosts and stops at lfuSample; " +
 			"(R-C09-ESTIMATE) tinyLFU.Estimate = freq.Estimate(key) plus one exactly on the side where door.Has(key); " +
-			"(R-C09-REPORT) in the applier a rejected newcomer goes to onReject and the victims loop is reached on both the admitted and the rejected path. " +
-			"NOT decided: accuracy of the estimates (C18) and which keys the runtime's map iteration yields.",
+			"(R-C09-REPORT) in the applier a rejected newcomer goes to onReject and the victims loop is reached on both the admitted and the rejected path; " +
+			"(R-C09-STREAM) the access stream that feeds the estimates is not corrupted: a ring stripe batch handed to the policy is never written again (rule shared with C08); " +
+			"(R-C09-COUNTERS) the 4-bit counters saturate instead of wrapping, so a hot key can never read as the coldest candidate (rule shared with C18). " +
+			"NOT decided: accuracy of the estimates beyond that (C18) and which keys the runtime's map iteration yields.",
 		Run: runC09,
 	})
 }
@@ -34,7 +36,11 @@ func runC09(c *Ctx) {
 	L.Rule("R-C09-ESTIMATE", "tinyLFU.Estimate = sketch estimate + 1 iff doorkeeper has the key", 1)
 	L.Rule("R-C09-REPORT", "rejected newcomer -> onReject; victims loop reached on both outcomes", 2)
 
+	L.Rule("R-C09-STREAM", "recorded accesses reach the sketch unaltered: ring stripe batches are not reused after the hand-off", 3)
+	L.Rule("R-C09-COUNTERS", "cmRow.get/increment agree on the nibble and increment saturates at the mask value", 3)
 	fastPathRule(c, "R-C09-FAST")
+	ringRule(c, "R-C09-STREAM")
+	nibbleRule(c, "R-C09-COUNTERS")
 
 	fn := P.FnOpt("ristretto", "defaultPolicy", "Add")
 	var tb *TB
